@@ -422,6 +422,64 @@ func TestC03(t *testing.T) {
 				m.logf("starve")
 				m.canon += "V"
 			},
+			"forgedWhileQueued": func(t *rapid.T) {
+				// While every pipe is busy a new request can only wait in the send queue: nobody has
+				// seen it, so nothing a peer sends can be its reply — not even a message carrying the
+				// id it is going to get (ids are consecutive, a peer can guess).
+				if !m.starved || len(m.ctxs) >= 4 {
+					t.Skip("needs the starved state")
+				}
+				f, err := m.sock.OpenContext()
+				if err != nil {
+					m.fail("opencontext", "OpenContext: %v", err)
+					return
+				}
+				var maxID uint32
+				for _, c := range m.ctxs {
+					if c.curID > maxID {
+						maxID = c.curID
+					}
+					for _, o := range c.oldIDs {
+						if o > maxID {
+							maxID = o
+						}
+					}
+				}
+				sendDone := make(chan error, 1)
+				go func() { sendDone <- f.Send([]byte("QUEUED")) }()
+				time.Sleep(5 * time.Millisecond)
+				pi := rapid.IntRange(0, len(m.pipes)-1).Draw(t, "pipe")
+				for k := uint32(1); k <= 3; k++ {
+					wire := make([]byte, 4, 16)
+					binary.BigEndian.PutUint32(wire, (maxID+k)|0x80000000)
+					wire = append(wire, []byte(fmt.Sprintf("FORGED+%d", k))...)
+					if res := m.pipes[pi].Inject(wire, 3*time.Second); res != vt.InjProcessed {
+						m.fail("receiver-stalled", "pipe %d receiver did not process an injected reply within 3s (result %d)", pi, res)
+						return
+					}
+				}
+				m.logf("forgedWhileQueued(pipe%d, ids %08x+1..3)", pi, maxID)
+				select {
+				case err := <-sendDone:
+					m.fail("queued-send-aborted", "a Send waiting in the queue (all pipes busy, request never transmitted) returned %v after a peer sent messages carrying guessed request ids", err)
+					_ = f.Close()
+					return
+				case <-time.After(30 * time.Millisecond):
+				}
+				_ = f.SetOption(mangos.OptionRecvDeadline, 30*time.Millisecond)
+				b, err := f.Recv()
+				if err == nil {
+					m.fail("forged-reply-delivered", "Recv returned %q for a request that was never transmitted (a peer guessed its id)", b)
+				}
+				_ = f.Close()
+				select {
+				case <-sendDone:
+				case <-time.After(3 * time.Second):
+					m.fail("send-stuck", "Send on a closed context did not return within 3s")
+				}
+				stats.Class("forged_reply_for_queued_request")
+				m.canon += "F"
+			},
 			"release": func(t *rapid.T) {
 				if !m.starved {
 					t.Skip("not starved")
